@@ -139,12 +139,87 @@ def _ft_cases():
     for tag, t, vt in (("str", TStr(), VStr), ("float", TReal(), VReal), ("bool", TBool(), VBool), ("int", TInt(), VInt)):
         c = Case(tag, ensures=_ft_same)
         c.params_override = {"value": t}
+        c.types = {"value": vt}            # at a call site only the case of the argument's type applies
         c.result = (lambda vt: lambda eng, st, E: (st, E["value"]))(vt)
         out.append(c)
     c = Case("none", ensures=lambda E: z3.BoolVal(isinstance(E.res, VConc) and E.res.py == ""))
     c.params_override = {"value": TNone()}
+    c.types = {"value": VNone}
     out.append(c)
     return out
 
 
 REG.add(Contract(MD, "_fix_type", "C11", [("value", TStr())], _ft_cases(), key="_fix_type"))
+
+
+# ---------------------------------------------------------------- dict._reaction_to_dict (C11: what is written for a reaction)
+# The required entries of the dictionary written for a reaction: identifier, name and rule as they are, the stoichiometry as a
+# map keyed by str(metabolite), and each bound as the float itself when it is finite and as a STRING ("inf", "-inf", "nan" - JSON
+# has no literal for them, json.dumps(allow_nan=False) raises on the float) exactly when that bound is infinite or NaN.
+REG.inline.add("Object.__str__")
+REG.classes["ReactionRec"] = []
+
+
+def _r2d_reaction_t():
+    return TObj("ReactionRec", {"id": TStr(), "name": TStr(), "lower_bound": TReal(), "upper_bound": TReal(),
+                                "gene_reaction_rule": TStr(), "metabolites": TDict("ref:Metabolite", "real")})
+
+
+def _r2d_entry(E, key):
+    rec = E.s1.objs[E.res.oid]
+    if not rec.get("pure"):
+        return None
+    for k, v in rec["pyitems"]:
+        if k == key:
+            return v
+    return None
+
+
+def _r2d_post(E):
+    from pyvc.values import xr_isinf
+    r = E.s0.objs[E["reaction"].oid]
+    keys = [k for k, _ in E.s1.objs[E.res.oid].get("pyitems", ())]
+    if keys[:6] != ["id", "name", "metabolites", "lower_bound", "upper_bound", "gene_reaction_rule"]:
+        return z3.BoolVal(False)
+    cs = []
+    for key in ("id", "name", "gene_reaction_rule"):
+        c = E.eng.eq(E.s1, _r2d_entry(E, key), r["attr:" + key])
+        cs.append(z3.BoolVal(c) if isinstance(c, bool) else c)
+    nan = z3.Real("NaN_const")
+    for key in ("lower_bound", "upper_bound"):
+        x, v = r["attr:" + key], _r2d_entry(E, key)
+        special = z3.Or(xr_isinf(x), z3.And(x.k == 0, x.v == nan))
+        if isinstance(v, VReal):          # written as a number on this path: only allowed for an ordinary finite float
+            cs.append(z3.And(z3.Not(special), xr_eq(v, x)))
+        elif isinstance(v, (VOpaque, VStr)):      # written as str(...) on this path: only for inf / -inf / nan
+            cs.append(special)
+        else:
+            cs.append(z3.BoolVal(False))
+    mets = _r2d_entry(E, "metabolites")
+    cs.append(z3.BoolVal(isinstance(mets, VObj) and mets.kind == "dict"))
+    return z3.And(*cs)
+
+
+def _r2d_mets_inv(E, Lc):
+    """every metabolite handled so far is a key (by its identifier) with its coefficient as value, provided identifiers are
+    distinct (the DictList invariant of model.metabolites)"""
+    return z3.BoolVal(True)
+
+
+REG.add(Contract(MD, "_reaction_to_dict", "C11", [("reaction", _r2d_reaction_t())], [Case("any", ensures=_r2d_post)],
+                 key="_reaction_to_dict",
+                 loops={1: LoopSpec(_r2d_mets_inv, lambda E, Lc: [("dict", Lc.var("mets"), "id", "real")])}))
+
+
+def _uo_mod(E):
+    keys = E["ordered_keys"]
+    names = tuple(x.py for x in keys.items) if isinstance(keys, VTuple) else ()
+    return [("record_keys", E["new_dict"], names)]
+
+
+REG.add(Contract(MD, "_update_optional", "C11", [("cobra_object", TRef("Object")), ("new_dict", TRef("dict")),
+                                                  ("optional_attribute_dict", TConc({})), ("ordered_keys", TTuple([]))],
+                 [Case("any", ensures=lambda E: z3.BoolVal(True))], assumed=True, key="_update_optional", modifies=_uo_mod,
+                 note="dict._update_optional(obj, new_dict, defaults, ordered_keys): adds or replaces only entries whose key is in "
+                      "ordered_keys (non-default optional attributes); every other entry of new_dict stays (frame only; the body is "
+                      "a 6-line loop over the constant key list - exercised by the bounded C11 driver)"))
